@@ -266,3 +266,15 @@ def shape_program(shape, ctx, variant):
     if variant == 1:
         return "#! mrasm\n" + "\n".join(body + ["\t" + line, "NOP", lab_def + ":", "STOP"])
     return "#! mrasm\n" + "\n".join(body[:1] + [lab_def + ":"] + body[1:] + ["\t" + line, "STOP"])
+
+
+def repo_corpus():
+    """the repository's own example / test programs (read from the working tree at check time)"""
+    import glob
+    out = []
+    for f in sorted(glob.glob("/repo/programs/*.asm") + glob.glob("/repo/testing/programs/*.asm")):
+        try:
+            out.append(open(f, encoding="utf-8").read())
+        except Exception:
+            pass
+    return out
